@@ -1,0 +1,15 @@
+//go:build verif
+// +build verif
+
+package nsqd
+
+// VerifCrashPoint, when set, is called by the disk queue after every
+// filesystem mutation (and just before its I/O loop blocks) with a label
+// naming the point. Only compiled with the `verif` build tag.
+var VerifCrashPoint func(point string)
+
+func verifCrashPoint(p string) {
+	if f := VerifCrashPoint; f != nil {
+		f(p)
+	}
+}
